@@ -70,3 +70,12 @@ PROPS['C04'] = A(level='fault_enumeration', harnesses=SLAB_H, budget=A(quick=170
     bounds=A(quick='the C01 explorations with one more environment answer: at every op that can call Policy::map, the call is failed (<=1 failure per history); every reachable state within the bounds is a failure point', thorough='<=2 failures per history'),
     rule='cases = (history, failed map call) pairs enumerated by BFS over alloc/realloc ops with a failing-map variant; distinct = distinct canonical states reached; non-trivial = the failing variant actually reached map()',
     assumptions=TRUST)
+
+STR_H = [A(src='harness/c15_strings.cpp', san='asan')]
+PROPS['C15'] = A(level='exploration', engine='enumerate', harnesses=STR_H, budget=A(quick=150, thorough=1200),
+    bounds=A(quick='all 121 strings of length <=4 over {a,b,NUL}: every constructor/copy/assign/swap/resize(0..len+2)/push_back/+=/+ /find_first(all c, all from)/find_last/sub_string(all from,n incl. out of range and SIZE_MAX wrap)/hash; all 14 641 ordered pairs: ==, compare (both overloads), +, +=, starts_with, ends_with, find_first_of; compare transitivity over all triples of strings <=3; to_number<int|unsigned|long|uint64_t|uint8_t> over {0,1,9,a}^<=5 + type maxima; char32_t strings of length 0..5; BFS depth 4 of mutation sequences on two slots',
+             thorough='strings of length <=5 (364; 132 496 pairs); triples over length <=4; to_number inputs of length <=6; sequences depth 5'),
+    rule='cases = every input of the stated finite domains, enumerated exhaustively (odometer over the alphabet); each is distinct by construction; non-trivial = all of them (every case exercises at least one library call against the std::string reference); source data lives in exact-size buffers ending at a PROT_NONE page, owned data in exact-size ASan heap blocks',
+    technique='exhaustive bounded enumeration of all inputs (and BFS over mutation sequences) executed on the real implementation against std::string',
+    assumptions=TRUST)
+PROPS['C16']['harnesses'] = PROPS['C16']['harnesses'] + STR_H
